@@ -201,7 +201,11 @@ func e2eDirection(c *Ctx, p *e2ePair, fromServer bool, ops []sendOp, parallel bo
 			if fs[i].Rsv1 {
 				dout = fs[i].Payload
 			}
-			opl = append(opl, VL{VN(op.Opcode), slicesVal(op.Slices), VB(fs[i].Key), VB(dout)})
+			kind := 0
+			if op.API == "broadcast" {
+				kind = 1
+			}
+			opl = append(opl, VL{VN(op.Opcode), slicesVal(op.Slices), VB(fs[i].Key), VB(dout), VN(kind)})
 		}
 		cpsAfter, _ := cpsState(from)
 		_, _, dpsAfter, _ := to.VerifWindows()
@@ -259,7 +263,7 @@ func runC01(c *Ctx) error {
 	c.Sum.Rule = "real gws-to-gws sessions over the in-memory transport (a real handshake each): every negotiated configuration {no compression; compression x 4 takeover combinations x window bits 8/11/15 per side x threshold 0/100 x levels} x both directions x sequential/parallel handling x random re-chunking of the byte stream x random message sequences (opcode, lengths at every encoding/segment boundary, contents repeating earlier traffic) through every write API and their mixes; oracle: delivered (opcode, payload) sequence = sent sequence (multiset when parallel), each exactly once; model: the same history through Model/EndToEnd.v (sender + receiver models) must reproduce the wire bytes, the delivered events and both windows; non-trivial = all; distinct by (config, direction, history)"
 	cfgs := pmdConfigs()
 	allAPIs := []string{"message", "writev", "async", "writevasync", "string", "file", "broadcast"}
-	bufAPIs := []string{"message", "writev", "async", "string", "writevasync"}
+	bufAPIs := []string{"message", "writev", "async", "string", "writevasync", "broadcast"}
 	rounds := 1
 	if !c.quick() {
 		rounds = 24
